@@ -166,9 +166,17 @@ pub fn check_lib(ctx: &Ctx, n: u64, c: &LibCase, compared: &mut u64) -> Vec<Viol
         }
     }
     let sf: Vec<(String, String)> = schema_order.iter().map(|p| (abs(p), text(p))).collect();
-    // the CLI loads operation files in glob order (sorted)
+    // the CLI loads operation files in the order its glob walk returns them; the order in which it lists the
+    // declaration files it wrote shows that order (fallback: sorted)
     let mut ops = c.op_paths.clone();
     ops.sort();
+    if let Some(listed) = r.stdout.lines().rev().find(|l| l.trim_start().starts_with('{')).and_then(|l| serde_json::from_str::<Value>(l).ok()).and_then(|v| v["generate"]["files"].as_array().cloned()) {
+        let order: Vec<String> = listed.iter().filter(|f| f["fileType"].as_str() == Some("operationTypeDefinition")).filter_map(|f| f["path"].as_str()).map(|p| crate::refimport::resolve_path("/", p)).collect();
+        let decl_of = |p: &String| abs(&format!("{}.{}", p.strip_suffix(".graphql").unwrap_or(p), c.decl_ext));
+        if ops.iter().all(|p| order.contains(&decl_of(p))) {
+            ops.sort_by_key(|p| order.iter().position(|o| *o == decl_of(p)).unwrap_or(usize::MAX));
+        }
+    }
     let of: Vec<(String, String)> = ops.iter().map(|p| (abs(p), text(p))).collect();
     let lib = run_project(&ProjectInput { schema_files: &sf, op_files: &of, config: &c.config_text, generate: false, check_only: false });
     let Some(o) = &lib.outputs else {
@@ -434,7 +442,7 @@ pub fn run(ctx: &Ctx, rep: &mut Report) {
         let mut rng = ctx.rng("c17b", case);
         let Some(mut proj) = gen_project(&mut rng, &ProjOpts::standard()) else { continue };
         proj.config.schema_module_specifier = Some("@/generated/schema".into());
-        let cfg = proj.config.render(&["./schema/**/*.graphql".to_string(), "./schema/*.graphqls".to_string()], &["./ops/**/*.graphql".to_string(), "./shared/*.graphql".to_string()]);
+        let cfg = proj.config.render(&["./schema/**/*.graphql".to_string(), "./schema/*.graphqls".to_string()], &proj.doc_globs);
         for f in proj.files.iter_mut() {
             if f.0.contains("graphql.config") {
                 f.1 = cfg.clone();
